@@ -164,13 +164,14 @@ CloseV(x, y) == Verdict(FxDiff(x, y), 1)
 FxIsZero(x) == CloseV(x, <<0, 0, 0>>)
 
 \* ------------------------------------------------------------------ nearly axis-aligned ("tilted") directions
-\* A big vector  w = [s, c, ax, facs]  stands for  s + c * Big * e_ax  with a small integer vector s (|s_k| <= 5), a small
-\* integer c and Big = the product of facs (each factor <= 1000): e.g. the direction (1, 0, 10^7).  Products with Big
-\* do not fit into 32 bits, so (w . u) / Big = (s . u) / Big + c * u[ax] is evaluated on the limbs: the limbs of s . u are
-\* divided by the factors one after the other (schoolbook division, floor; error < 1 unit per factor).
+\* A big vector  w = [s, cv, facs]  stands for  s + Big * cv  with small integer vectors s, cv (|s_k| <= 30, |cv_k| <= 5)
+\* and Big = the product of facs (each factor <= 1000): e.g. the direction (1, 0, 10^7) = (1,0,0) + 10^7 (0,0,1).
+\* Products with Big do not fit into 32 bits, so (w . u) / Big = (s . u) / Big + cv . u is evaluated on the limbs: the
+\* limbs of s . u are divided by the factors one after the other (schoolbook division, floor; error < 1 unit per factor).
 RECURSIVE Prod(_)
 Prod(f) == IF f = <<>> THEN 1 ELSE Head(f) * Prod(Tail(f))
-BigInts(w) == [k \in 1..Len(w.s) |-> w.s[k] + (IF k = w.ax THEN w.c * Prod(w.facs) ELSE 0)]
+BigInts(w) == [k \in 1..Len(w.s) |-> w.s[k] + w.cv[k] * Prod(w.facs)]
+IsSmall(w) == \A k \in 1..Len(w.cv) : w.cv[k] = 0
 FxLimbDot(s, u) == <<SumF(LAMBDA k : s[k] * u[k][1], Len(u)), SumF(LAMBDA k : s[k] * u[k][2], Len(u)),
                      SumF(LAMBDA k : s[k] * u[k][3], Len(u))>>
 DivLimbs(L, d) == LET t2 == (L[1] % d) * LB + L[2]
@@ -181,16 +182,16 @@ DivAll(L, facs) == IF facs = <<>> THEN L ELSE DivAll(DivLimbs(L, Head(facs)), Ta
 \* value of (not necessarily normalised) limbs in units of 2^-39; HUGE: certainly beyond 1.9e-3
 FxCombine(L) == IF Abs(L[1]) >= 131072 THEN HUGE
                 ELSE LET M == L[1] * LB + L[2] IN IF Abs(M) >= 131072 THEN HUGE ELSE M * LB + L[3]
-\* (w . u) / Big in units of 2^-39 (c = 0: w = s is a small vector, plain w . u)
+\* (w . u) / Big in units of 2^-39 (cv = 0: w = s is a small vector, plain w . u)
 FxBigDotRel(w, u) ==
-  IF w.c = 0 THEN FxIntDot(w.s, u)
+  IF IsSmall(w) THEN FxIntDot(w.s, u)
   ELSE LET q == DivAll(FxLimbDot(w.s, u), w.facs)
-           x == u[w.ax]
-       IN FxCombine(<<q[1] + w.c * x[1], q[2] + w.c * x[2], q[3] + w.c * x[3]>>)
-BigScale(w) == IF w.c = 0 THEN ScaleOf(w.s) ELSE Abs(w.c) + 1          \* >= |w| / Big
+           x == FxLimbDot(w.cv, u)
+       IN FxCombine(<<q[1] + x[1], q[2] + x[2], q[3] + x[3]>>)
+BigScale(w) == IF IsSmall(w) THEN ScaleOf(w.s) ELSE ScaleOf(w.cv)          \* >= |w| / Big
 BigPerpV(w, u) == IF ~FxVecOk(u) THEN 2 ELSE Verdict(FxBigDotRel(w, u), BigScale(w))
 \* leading limbs of (w . u) / Big, units of 2^-13 (the s part is below one unit)
-BigDotCoarse(w, u) == w.c * u[w.ax][1]
+BigDotCoarse(w, u) == SumF(LAMBDA k : w.cv[k] * u[k][1], Len(u))
 
 \* diagonal block b (1-based) of a (d*k) x (d*k) encoded matrix
 SubSq(A, b, d) == [i \in 1..d |-> [j \in 1..d |-> A[(b - 1) * d + i][(b - 1) * d + j]]]
